@@ -211,7 +211,25 @@ func (rn *run11) ctx() string {
 
 func execute(c *vf.Case, kind zoo.Kind, seq []string) *run11 {
 	buildRand := *c.R
-	b, err := zoo.Build(c.R, kind, zoo.Opts{Interval: interval})
+	// a user recorder with a loop of its own (a third of the stats sequences); not when a stream is
+	// bound after Close - what such a stream does is outside the statement, and a recorder started
+	// then has nobody left to stop it
+	loopRec := kind == zoo.Stats && (c.Idx/len(zoo.All))%3 == 0
+	closedAt := -1
+	for i, sym := range seq {
+		switch sym {
+		case "C", "X", "H":
+			if closedAt < 0 {
+				closedAt = i
+			}
+		case "L0", "L1", "M0", "M1":
+			if closedAt >= 0 {
+				loopRec = false
+			}
+		}
+	}
+	zopts := zoo.Opts{Interval: interval, LoopRecorder: loopRec}
+	b, err := zoo.Build(c.R, kind, zopts)
 	if err != nil {
 		c.Violation("build/"+kind.String(), "%v", err)
 		return nil
@@ -978,7 +996,7 @@ func (rn *run11) checkFreshAfterRebind(s *stream) {
 				return
 			}
 		}
-	case rn.kind == zoo.Stats && s.local && rn.b.StatsGetter != nil:
+	case rn.kind == zoo.Stats && s.local && rn.b.StatsGetter != nil && !rn.b.CustomRecorder:
 		synctest.Wait()
 		if st := rn.b.StatsGetter.Get(s.opts.SSRC); st != nil && int(st.OutboundRTPStreamStats.PacketsSent) != s.sentSinceBind {
 			rn.c.Violation("stale-state-after-rebind/stats/packets-sent",
